@@ -118,6 +118,21 @@ def work(ctx, tier):
         for e in common.pick_entries(rng, rig.ENTRIES, 2):
             _run(ctx, sc, e, stats, "random")
         ctx.inc("random_scenarios")
+    # the barest use: nobody watching (no hooks at all), a short policy - one attempt among them - and an abort predicate
+    n2 = (600 if tier == "quick" else 15000) // ctx.nshards
+    for k in range(n2):
+        sc = gen.rand_scenario(rng, max_attempts=(1, 3), p_special=0.0, p_budget=0.1, p_handler=0.1, p_abort=0.0, ncalls=(1, 1), p_no_sleeper=0.2, poll_kinds=True)
+        sc["poll"] = True
+        sc["no_hooks"] = True
+        sc["timeline"] = False
+        sc["place"]["hooks"] = "none"
+        sc["place"]["before_sleep"] = rng.choice(["none", "none", "call"])
+        if k % 2:
+            sc["cfg"]["result_classifier"] = False
+        sc["calls"][0]["abort_at"] = rng.choice([0, 0, 1, 2, None])
+        for e in common.pick_entries(rng, rig.ENTRIES, 2):
+            _run(ctx, sc, e, stats, "unobserved")
+        ctx.inc("unobserved_scenarios")
     if ctx.shard == 0:
         hang.cancel_while_unwinding(ctx, rounds=1 if tier == "quick" else 5)
         hang.abort_while_other_calls_hang(ctx)
@@ -128,6 +143,7 @@ def work(ctx, tier):
 def conclude(ctx):
     floors = {
         "gaps_checked": (ctx.cnt["gaps_checked"], 5000),
+        "unobserved_scenarios": (ctx.cnt["unobserved_scenarios"], 100),
         "stops:abort": (ctx.cnt["stops:abort"], 500),
         "stops:abort-op": (ctx.cnt["stops:abort-op"], 200),
         "stops:special": (ctx.cnt["stops:special"], 300),
